@@ -46,7 +46,8 @@ func zzRSFor(ds *v1alpha1.ExtendedDaemonSet, id, name string) *v1alpha1.Extended
 var zzIO = genericclioptions.IOStreams{Out: io.Discard, ErrOut: io.Discard}
 
 // zzScenario builds the store for one of the ExtendedDaemonSet states of property C19.
-//   state: no-strategy | idle | canary | auto-paused | user-paused | failed
+//
+//	state: no-strategy | idle | canary | auto-paused | user-paused | failed
 func zzScenario(state string) (*fakeapi.Client, *v1alpha1.ExtendedDaemonSet) {
 	ds := &v1alpha1.ExtendedDaemonSet{ObjectMeta: metav1.ObjectMeta{Name: "foo", Namespace: "ns", UID: "uid-foo", Annotations: map[string]string{"user/keep": "x"}}}
 	if state != "no-strategy" {
